@@ -269,7 +269,14 @@ func (g *G) genBool(d int) *E {
 	case 2:
 		return Bin(g.pickS(cmp), g.genInt(d-1), g.genInt(d-1))
 	case 3:
-		// int/float comparison (exact, §3.4.4)
+		// int/float comparison (exact, §3.4.4); comparisons with NaN are all false
+		if g.chance(15) {
+			nan := Bin("div", Int(0), Int(0))
+			if g.chance(50) {
+				return Bin(g.pickS(cmp), nan, g.genFloat(d-1))
+			}
+			return Bin(g.pickS(cmp), g.genInt(d-1), nan)
+		}
 		if g.chance(50) {
 			return Bin(g.pickS(cmp), g.genInt(d-1), g.genFloat(d-1))
 		}
